@@ -21,7 +21,6 @@ use super::Arc;
 ///
 /// `ArcBorrow` lets us deal with borrows of known-refcounted objects
 /// without needing to worry about where the `Arc<T>` is.
-#[derive(Debug)]
 #[repr(transparent)]
 pub struct ArcBorrow<'a, T: ?Sized + 'a>(pub(crate) NonNull<T>, pub(crate) PhantomData<&'a T>);
 
@@ -44,6 +43,12 @@ impl<'a, T: ?Sized + PartialEq> PartialEq for ArcBorrow<'a, T> {
 }
 
 impl<'a, T: ?Sized + Eq> Eq for ArcBorrow<'a, T> {}
+
+impl<'a, T: ?Sized + core::fmt::Debug> core::fmt::Debug for ArcBorrow<'a, T> {
+    fn fmt(&self, f: &mut core::fmt::Formatter) -> core::fmt::Result {
+        core::fmt::Debug::fmt(unsafe { &*self.0.as_ptr() }, f)
+    }
+}
 
 impl<'a, T> Copy for ArcBorrow<'a, T> {}
 impl<'a, T> Clone for ArcBorrow<'a, T> {
